@@ -3,6 +3,7 @@
    lemma from Proofs/RetryProofs.v and followed by Print Assumptions. *)
 From Coq Require Import List ZArith Bool Lia.
 From Shoot Require Import Model.Retry Proofs.RetryProofs Corr.RetryCorr Proofs.RetryCorrProofs.
+From Shoot Require Import Model.RetryStack Proofs.RetryStackProofs.
 Import ListNotations.
 
 (* acceptable = "a response with status below 500 and no error" *)
@@ -66,6 +67,65 @@ Print Assumptions C20_Pb_first_acc_is_first_acceptable.
 Theorem C20_Pb_holds_on_model : forall n l, Pb n l (model_obs n l) = true.
 Proof. exact Pb_holds_on_model. Qed.
 Print Assumptions C20_Pb_holds_on_model.
+
+(* ---- stacks of middlewares (Model/RetryStack.v): RetryMiddleware as a transformer of arbitrary
+   stateful RoundTrippers.  Over the scripted wire it is exactly the model above, so the ties of
+   that model to middleware/retry.go carry over ---- *)
+Theorem C20_stack_refines_model : forall n script,
+  retry_tr n (wire script) 0 =
+  (fst (retry n script), snd (retry n script), calls (fst (retry n script))).
+Proof. exact retry_tr_wire. Qed.
+Print Assumptions C20_stack_refines_model.
+
+(* "never more" composes: around ANY RoundTripper that makes at most k wire calls per request,
+   RetryMiddleware(n, d) makes at most (n+1) * k; hence a retry inside a retry makes at most
+   (n+1) * (m+1) calls of the wire transport, from any state of the wire *)
+Theorem C20_stack_bound : forall n next k,
+  bounded next k -> bounded (retry_tr n next) (Z.to_nat (n + 1) * k).
+Proof. exact retry_tr_bounded. Qed.
+Print Assumptions C20_stack_bound.
+
+Theorem C20_nested_at_most_product : forall n m script c,
+  (0 <= n)%Z -> (0 <= m)%Z ->
+  wire_calls (retry_tr n (retry_tr m (wire script))) c <= Z.to_nat ((n + 1) * (m + 1)).
+Proof. exact nested_retry_bound. Qed.
+Print Assumptions C20_nested_at_most_product.
+
+(* RetryMiddleware(0, d) is the identity on RoundTrippers, outside or inside another instance:
+   this is what lets the harness's outer0 / inner0 profiles be compared with the single-instance model *)
+Theorem C20_zero_is_identity : forall next c, retry_tr 0 next c = next c.
+Proof. exact retry_tr_zero. Qed.
+Print Assumptions C20_zero_is_identity.
+
+Theorem C20_zero_inside_or_outside : forall n next c,
+  retry_tr 0 (retry_tr n next) c = retry_tr n next c /\
+  retry_tr n (retry_tr 0 next) c = retry_tr n next c.
+Proof. intros n next c. exact (conj (retry_zero_outside n next c) (retry_zero_inside n next c)). Qed.
+Print Assumptions C20_zero_inside_or_outside.
+
+(* for n >= 0 a retry never hands (nil, nil) to the middleware around it, provided the transport
+   below never does: the side condition of the model is preserved by stacking *)
+Theorem C20_stack_never_nil_nil : forall n next,
+  (0 <= n)%Z -> ok_tr next -> ok_tr (retry_tr n next).
+Proof. exact retry_tr_ok. Qed.
+Print Assumptions C20_stack_never_nil_nil.
+
+(* LoggingMiddleware commutes with RetryMiddleware: same events and wire calls either way, the
+   result differing only by logging's dropping of a response that accompanies an error *)
+Theorem C20_logging_commutes : forall n next c,
+  retry_tr n (log_tr next) c = log_tr (retry_tr n next) c.
+Proof. exact retry_log_commute. Qed.
+Print Assumptions C20_logging_commutes.
+
+(* non-vacuity of the stack theorems: a retry(1) inside a retry(1) over a wire that fails three
+   times and then answers 200 makes 4 = (1+1)*(1+1) wire calls and returns that answer *)
+Example C20_example_nested :
+  retry_tr 1 (retry_tr 1 (wire (script_of
+     [RErr 1 None; RResp {| r_id := 2; r_status := 503 |}; RErr 3 None; RResp {| r_id := 4; r_status := 200 |}]
+     (RErr 0 None)))) 0%nat
+  = ([ECall 0; ESleep; ECall 1; ESleep; ECall 2; ESleep; ECall 3],
+     (Some {| r_id := 4; r_status := 200 |}, None), 4).
+Proof. vm_compute. reflexivity. Qed.
 
 (* non-vacuity: a concrete script meeting the hypotheses of both main theorems *)
 Example C20_example_hit :
